@@ -1,6 +1,6 @@
 (* Lemmas about Model/Viz.v. *)
-From Coq Require Import ZArith List Bool Lia Permutation.
-From Mesa Require Import Common.ListX Model.Viz.
+From Coq Require Import ZArith List Bool Lia Permutation Sorted PeanoNat.
+From Mesa Require Import Common.ListX Generated.Tables Model.Viz.
 Import ListNotations.
 Open Scope Z_scope.
 
@@ -497,8 +497,11 @@ Proof.
 Qed.
 
 (* ------------------------------------------------------------------ hexagon centres *)
-Lemma hex_parity y : (y - 1) mod 2 = (if y mod 2 =? 0 then 1 else 0).
+(* with the constants K = 1 and P = 0 extracted from the CURRENT source *)
+Lemma hex_parity y :
+  (y - gen_viz_hex_row_offset) mod 2 = (if y mod 2 =? gen_viz_mesh_shift_parity then 1 else 0).
 Proof.
+  unfold gen_viz_hex_row_offset, gen_viz_mesh_shift_parity.
   destruct (y mod 2 =? 0) eqn:E.
   - apply Z.eqb_eq in E. symmetry. apply (Z.mod_unique (y - 1) 2 (y / 2 - 1) 1); [lia|].
     pose proof (Z.div_mod y 2). lia.
@@ -507,7 +510,7 @@ Proof.
 Qed.
 
 Lemma hex_center_is_mesh_center x y : hex_center (x, y) = mesh_center x y.
-Proof. unfold hex_center, mesh_center. simpl. rewrite hex_parity. reflexivity. Qed.
+Proof. unfold hex_center, mesh_center. cbn [fst snd]. rewrite hex_parity. reflexivity. Qed.
 
 Lemma mesh_center_inj c1 r1 c2 r2 : mesh_center c1 r1 = mesh_center c2 r2 -> c1 = c2 /\ r1 = r2.
 Proof.
@@ -516,7 +519,7 @@ Proof.
   assert (H2 : snd (mesh_center c1 r1) = snd (mesh_center c2 r2)) by (rewrite H; reflexivity).
   unfold mesh_center in H1, H2. cbn [fst snd] in H1, H2. clear H.
   assert (r1 = r2) by lia. subst r2. split; [|reflexivity].
-  destruct (r1 mod 2 =? 0); lia.
+  destruct (r1 mod 2 =? gen_viz_mesh_shift_parity); lia.
 Qed.
 
 (* ------------------------------------------------------------------ property layers *)
@@ -948,4 +951,139 @@ Lemma creator_checks_all s ps :
 Proof.
   intros r. apply check_perm. apply Permutation_map.
   rewrite Permutation_app_comm. apply (proj1 (split_lossless ps)).
+Qed.
+
+(* ------------------------------------------------------------------ canonical observations *)
+(* lsort is a function of the multiset of rows, so an observation (sorted rows) of a permutation
+   of the required markers IS the observation of the required markers *)
+Lemma lex_leb_total a : forall b, lex_leb a b = true \/ lex_leb b a = true.
+Proof.
+  induction a as [|x a IH]; intros [|y b]; simpl; auto.
+  destruct (x <? y) eqn:E1; [auto|]. destruct (y <? x) eqn:E2; [auto|]. apply IH.
+Qed.
+
+Lemma lex_leb_trans a : forall b c, lex_leb a b = true -> lex_leb b c = true -> lex_leb a c = true.
+Proof.
+  induction a as [|x a IH]; intros [|y b] [|z c]; simpl; auto; try discriminate.
+  destruct (x <? y) eqn:E1.
+  - intros _. destruct (y <? z) eqn:E2.
+    + intros _. apply Z.ltb_lt in E1, E2. assert (x <? z = true) as -> by (apply Z.ltb_lt; lia). reflexivity.
+    + destruct (z <? y) eqn:E3; [discriminate|]. intros _.
+      apply Z.ltb_lt in E1. apply Z.ltb_ge in E2, E3.
+      assert (x <? z = true) as -> by (apply Z.ltb_lt; lia). reflexivity.
+  - destruct (y <? x) eqn:E2; [discriminate|]. intros Hab.
+    apply Z.ltb_ge in E1, E2. assert (x = y) by lia. subst y.
+    destruct (x <? z); [reflexivity|]. destruct (z <? x); [discriminate|]. apply IH. exact Hab.
+Qed.
+
+Lemma lex_leb_antisym a : forall b, lex_leb a b = true -> lex_leb b a = true -> a = b.
+Proof.
+  induction a as [|x a IH]; intros [|y b]; simpl; auto; try discriminate.
+  destruct (x <? y) eqn:E1, (y <? x) eqn:E2; try discriminate.
+  - apply Z.ltb_lt in E1, E2. lia.
+  - intros H1 H2. apply Z.ltb_ge in E1, E2. assert (x = y) by lia. subst. f_equal. apply IH; assumption.
+Qed.
+
+Definition lle (a b : list Z) : Prop := lex_leb a b = true.
+
+Lemma linsert_perm r l : Permutation (r :: l) (linsert r l).
+Proof.
+  induction l as [|h t IH]; simpl; [reflexivity|].
+  destruct (lex_leb r h); [reflexivity|]. rewrite perm_swap. constructor. exact IH.
+Qed.
+
+Lemma lsort_perm l : Permutation l (lsort l).
+Proof.
+  induction l as [|x t IH]; simpl; [constructor|].
+  rewrite <- linsert_perm. constructor. exact IH.
+Qed.
+
+Lemma linsert_sorted r l : StronglySorted lle l -> StronglySorted lle (linsert r l).
+Proof.
+  induction 1 as [|h t Hs IH Hh]; simpl; [repeat constructor|].
+  destruct (lex_leb r h) eqn:E.
+  - constructor; [constructor; assumption|]. constructor; [exact E|].
+    eapply Forall_impl; [|exact Hh]. intros b Hb. unfold lle in *. eapply lex_leb_trans; eassumption.
+  - constructor; [exact IH|].
+    assert (Hhr : lle h r) by (destruct (lex_leb_total r h) as [H|H]; [congruence|exact H]).
+    eapply Permutation_Forall; [apply linsert_perm|]. constructor; assumption.
+Qed.
+
+Lemma lsort_sorted l : StronglySorted lle (lsort l).
+Proof. induction l as [|x t IH]; simpl; [constructor|]. apply linsert_sorted. exact IH. Qed.
+
+Lemma sorted_perm_eq l : forall l',
+  StronglySorted lle l -> StronglySorted lle l' -> Permutation l l' -> l = l'.
+Proof.
+  induction l as [|a t IH]; intros l' Hs Hs' Hp.
+  - apply Permutation_nil in Hp. congruence.
+  - destruct l' as [|b t']; [apply Permutation_sym, Permutation_nil in Hp; discriminate|].
+    inversion Hs as [|? ? Hst Ha]; subst. inversion Hs' as [|? ? Hst' Hb]; subst.
+    assert (a = b).
+    { assert (In b (a :: t)) as Hb1 by (eapply Permutation_in; [apply Permutation_sym; exact Hp|left; reflexivity]).
+      assert (In a (b :: t')) as Ha1 by (eapply Permutation_in; [exact Hp|left; reflexivity]).
+      destruct Hb1 as [->|Hb1]; [reflexivity|]. destruct Ha1 as [->|Ha1]; [reflexivity|].
+      rewrite Forall_forall in Ha, Hb. apply lex_leb_antisym; [apply Ha; exact Hb1|apply Hb; exact Ha1]. }
+    subst b. f_equal. apply IH; [assumption|assumption|]. eapply Permutation_cons_inv. exact Hp.
+Qed.
+
+Lemma lsort_perm_eq l l' : Permutation l l' -> lsort l = lsort l'.
+Proof.
+  intros H. apply sorted_perm_eq; [apply lsort_sorted|apply lsort_sorted|].
+  rewrite <- (lsort_perm l), <- (lsort_perm l'). exact H.
+Qed.
+
+Lemma obs_rows_perm l l' : Permutation l l' -> obs_rows l = obs_rows l'.
+Proof.
+  intros H. unfold obs_rows. rewrite (Permutation_length H), (lsort_perm_eq l l' H). reflexivity.
+Qed.
+
+(* what the model (hence, by the correspondence, the implementation) OBSERVES when it draws is
+   the canonical form of the required markers / rows *)
+Lemma obs_mpl_spec c ops :
+  let sp := c_space c in let pt := c_portrayal c in
+  let st := exec sp pt (init_state c) ops in
+  obs_mpl sp pt (st_agents st) = obs_rows (map mark_row (map (drawn_mark sp pt) (st_agents st))).
+Proof.
+  intros sp pt st. destruct (one_marker_each c ops) as [_ [gs [Hg Hp]]].
+  fold sp pt st in Hg, Hp. unfold obs_mpl. rewrite Hg.
+  apply obs_rows_perm. apply Permutation_map. exact Hp.
+Qed.
+
+Lemma obs_collect_spec c ops :
+  let sp := c_space c in let pt := c_portrayal c in
+  let st := exec sp pt (init_state c) ops in
+  obs_collect sp pt (st_agents st) = obs_rows (map mark_row (map (the_mark pt (dflt_size sp)) (st_agents st))).
+Proof.
+  intros sp pt st. destruct (collect_each c ops) as [cl [Hc Hm]].
+  fold sp pt st in Hc, Hm. unfold obs_collect. rewrite Hc, Hm. reflexivity.
+Qed.
+
+Lemma obs_altair_spec c ops :
+  let sp := c_space c in let pt := c_portrayal c in
+  let st := exec sp pt (init_state c) ops in
+  ((sp_altair sp = 1 \/ sp_altair sp = 2) /\ grid_family sp) \/ (sp_altair sp = 3 /\ has_pos sp) ->
+  obs_altair sp pt (st_agents st) = obs_rows (map arow_row (map (arow_of pt) (st_agents st))).
+Proof.
+  intros sp pt st Hsup. destruct (altair_one_row_each c ops Hsup) as [rows [Hr Hp]].
+  fold sp pt st in Hr, Hp. unfold obs_altair. rewrite Hr.
+  apply obs_rows_perm. apply Permutation_map. exact Hp.
+Qed.
+
+Lemma run_ops_length sp pt ops : forall st, length (run_ops sp pt st ops) = length ops.
+Proof.
+  induction ops as [|o t IH]; intros st; simpl; [reflexivity|].
+  destruct (step sp pt st o). simpl. rewrite IH. reflexivity.
+Qed.
+
+(* the observation run_case produces at a DrawMpl operation anywhere in a history *)
+Lemma run_case_draw c pre post :
+  c_ops c = pre ++ DrawMpl :: post ->
+  let sp := c_space c in let pt := c_portrayal c in
+  let st := exec sp pt (init_state c) pre in
+  nth (length pre) (run_case c) [] = obs_rows (map mark_row (map (drawn_mark sp pt) (st_agents st))).
+Proof.
+  intros Hops sp pt st. unfold run_case. rewrite Hops, run_ops_app.
+  rewrite app_nth2 by (rewrite run_ops_length; lia). rewrite run_ops_length, Nat.sub_diag.
+  cbn [run_ops step nth]. apply (obs_mpl_spec c pre).
 Qed.
